@@ -129,11 +129,19 @@ impl XmlReader {
 
     fn read_xml_internal(file: &FileContent, file_name: &str, files: &Files) -> WriterResult<RustDocument> {
         if file.processed.load(std::sync::atomic::Ordering::SeqCst) {
+            #[cfg(feature = "verif")]
+            crate::verif::skip_processed(file_name);
             let rust_doc = RustDocument::empty();
             return Ok(rust_doc);
         }
 
+        #[cfg(feature = "verif")]
+        let mut verif_guard = crate::verif::FileGuard::enter(file_name);
         let xml = &file.xml;
+        #[cfg(feature = "verif")]
+        if roxmltree::Document::parse(xml).is_err() {
+            crate::verif::parse_fail(file_name);
+        }
         let doc = roxmltree::Document::parse(xml)
             .map_err(|e| WriterError::new(format!("Unable to parse file {file_name}: {e}")))?;
         let mut rust_doc = RustDocument::init(&doc);
@@ -143,6 +151,8 @@ impl XmlReader {
         }
 
         file.processed.store(true, std::sync::atomic::Ordering::SeqCst);
+        #[cfg(feature = "verif")]
+        verif_guard.ok(&rust_doc);
 
         Ok(rust_doc)
     }
@@ -177,24 +187,32 @@ impl XmlReader {
             if node_name == "message" {
                 let message = SoapMessage::try_from_node(child, doc)?;
                 doc.soap_messages.push(message.into());
+                #[cfg(feature = "verif")]
+                crate::verif::soap_message(doc.soap_messages.last().unwrap());
             }
 
             // read soap ports
             if node_name == "portType" {
                 let port = SoapPort::try_from_node(child, doc)?;
                 doc.soap_ports.push(port.into());
+                #[cfg(feature = "verif")]
+                crate::verif::soap_port(doc.soap_ports.last().unwrap());
             }
 
             // read soap bindings
             if node_name == "binding" {
                 let binding = SoapBinding::try_from_node(child, doc)?;
                 doc.soap_bindings.push(binding.into());
+                #[cfg(feature = "verif")]
+                crate::verif::soap_binding(doc.soap_bindings.last().unwrap());
             }
 
             // read soap services
             if node_name == "service" {
                 let service = SoapService::try_from_node(child, doc)?;
                 doc.soap_services.push(service);
+                #[cfg(feature = "verif")]
+                crate::verif::soap_service(doc.soap_services.last().unwrap());
             }
         }
 
@@ -221,8 +239,12 @@ impl XmlReader {
                 continue;
             }
 
+            #[cfg(feature = "verif")]
+            crate::verif::try_child(&child);
             if let Ok(child_node) = RustNode::try_from_node(child, doc) {
                 doc.nodes.push(child_node.into());
+                #[cfg(feature = "verif")]
+                crate::verif::push_node(doc.nodes.last().unwrap());
             }
         }
 
@@ -230,25 +252,41 @@ impl XmlReader {
     }
 
     fn process_import(node: Node, files: &Files) -> WriterResult<RustDocument> {
+        #[cfg(feature = "verif")]
+        if node.attribute("namespace").is_none() {
+            crate::verif::import(None, node.attribute("schemaLocation"), "no_namespace");
+        }
         let namespace = node.attribute("namespace").ok_or(WriterError::NamespaceMissing)?;
 
         if WELL_KNOWN_NAMESPACES.contains(&namespace) {
+            #[cfg(feature = "verif")]
+            crate::verif::import(Some(namespace), node.attribute("schemaLocation"), "well_known");
             return Ok(RustDocument::empty());
         }
 
         let Some(schema_location) = node.attribute("schemaLocation") else {
+            #[cfg(feature = "verif")]
+            crate::verif::import(Some(namespace), None, "no_location");
             return Ok(RustDocument::empty());
         };
 
+        #[cfg(feature = "verif")]
+        if !files.map.contains_key(schema_location) {
+            crate::verif::import(Some(namespace), Some(schema_location), "not_found");
+        }
         let file = files
             .map
             .get(schema_location)
             .ok_or_else(|| WriterError::ImportNotFound(schema_location.to_string()))?;
 
         if file.processed.load(std::sync::atomic::Ordering::Relaxed) {
+            #[cfg(feature = "verif")]
+            crate::verif::import(Some(namespace), Some(schema_location), "processed");
             return Ok(RustDocument::empty());
         }
 
+        #[cfg(feature = "verif")]
+        crate::verif::import(Some(namespace), Some(schema_location), "recurse");
         let rust_doc = Self::read_xml_internal(file, schema_location, files)?;
         Ok(rust_doc)
     }
